@@ -3,6 +3,7 @@ package main
 import (
 	"fmt"
 	"os"
+	"time"
 
 	"github.com/benoitkugler/gomacro/generator"
 )
@@ -24,8 +25,10 @@ func HC20_saveOutputs() {
 	}
 	fmts = generator.Formatters{}
 	err := saveOutputs("", "", nil, outs)
-	log := vfExecLog()
+	log := vfExecLog() // what has run when saveOutputs returns
 	if !vfEngine() {
+		// (natively, formatter requests that outlive the call would disturb the next case: let them end)
+		time.Sleep(400 * time.Millisecond)
 		for _, o := range outs {
 			os.Remove(o.file)
 		}
